@@ -81,15 +81,26 @@ def make_case(idx):
                 prog.append(R.choice(['w', 'b', 'e', '3l', '3h', 'l', 'h', 'j', 'k', '5w', '5b']))
             else:
                 prog.append(R.choice(['x', 'rZ', 'iab\x1b', 'D', 'u', '~', 'dw', 'A!\x1b']))
-    raw = R.random() < 0.12
+    rtl = False
+    if not horiz and R.random() < 0.06:
+        # right-to-left base direction with single-byte text (no reordering, no shaping): the rows are the mirror image of a window
+        # of the line, counted from the right edge; long lines scroll horizontally
+        rtl = True
+        abc = 'abcdefghijklmnopqrstuvwxyz0123456789ABCDEFGHIJKLMNOPQRSTUVWXYZ'
+        lines = [(abc[k:] + abc * 6)[:R.choice([3, cols - 1, cols, cols + 1, 2 * cols, 3 * cols + 5])] for k in R.sample(range(20), R.randint(1, min(4, rows - 1)))]
+        pre = ':se td=-2\n'
+        fname = 'f1'
+        targets = [1, 2, cols - 1, cols, cols + 1, cols + cols // 2, 2 * cols, 2 * cols + 1, 3 * cols]
+        prog = [R.choice(['%d|' % R.choice(targets), '$', '0', 'l', 'h', '3l', '3h', 'j', 'k', 'w', 'b']) for _ in range(R.randint(1, 8))]
+    raw = R.random() < 0.12 or rtl
     if horiz and R.random() < 0.7:
         # (the per-command normalisation is itself a motion and re-centres the view: most of this family runs without it and ends in a jump)
         raw = True
         prog = prog[:R.randint(1, 8)] + [R.choice(['$', '$', '%d|' % R.choice(targets)]), '%d|' % R.choice(targets)]
-    if raw and not horiz and R.random() < 0.5:
+    if raw and not horiz and not rtl and R.random() < 0.5:
         # commands that move the cursor without redrawing anything
         prog.append(R.choice(['yb', 'y0', 'yB', 'y^', 'yFo', 'yTa', 'y2h', 'yk', 'y{', 'ma', '\x07']))
-    return {'lines': lines, 'rows': rows, 'cols': cols, 'pre': pre, 'prog': prog, 'idx': idx, 'kind': kind, 'raw': raw, 'horiz': horiz, 'fname': fname}
+    return {'lines': lines, 'rows': rows, 'cols': cols, 'pre': pre, 'prog': prog, 'idx': idx, 'kind': kind, 'raw': raw, 'horiz': horiz, 'fname': fname, 'rtl': rtl}
 
 
 def cells_of(line, W):
@@ -195,6 +206,7 @@ def run_case(args):
         top, bot = scr.top, scr.bot
         s1 = [scr.row_text(i) for i in range(case['rows'])]
         c1 = (scr.r, scr.c)
+        grid1 = [row[:] for row in scr.g] if case.get('rtl') else None
         scr.feed(out[m1.start():m2.start()])
         s2 = [scr.row_text(i) for i in range(case['rows'])]
         c2 = (scr.r, scr.c)
@@ -204,6 +216,15 @@ def run_case(args):
         if case['raw']:
             final = (s1, c1, top, bot)
             break
+        # split windows: the inactive window is a snapshot that neatvi refreshes when it becomes active again, so its rows may
+        # lag behind the buffer; but a command in the active window must not PAINT on them: they stay as they were before it
+        cmdkeys = case['prog'][cmdno] if cmdno < len(case['prog']) else ''
+        if last is not None and (top > 0 or bot < case['rows'] - 2) and not cmdkeys.startswith(('\x17', ':')) and '\x0c' not in cmdkeys:
+            outside = [i for i in range(0, case['rows'] - 1) if not (top <= i <= bot + 1)]       # (row bot+1 is the active window's own status line)
+            diff = [i for i in outside if s1[i] != last[i]]
+            if diff:
+                return ('screen:painted-outside-window', 'window %dx%d split, active rows %d..%d, command #%d %r: row %d of the other window changed from %r to %r' % (
+                    case['rows'], case['cols'], top, bot, cmdno, cmdkeys, diff[0], last[diff[0]], s1[diff[0]]), wit, nck, nontriv)
         if s1[top:bot + 1] != s2[top:bot + 1]:
             diff = [i for i in range(top, bot + 1) if s1[i] != s2[i]]
             return ('screen:stale-row', 'window %dx%d, after command #%d %r (program %s): row %d shows %r, a full repaint draws %r' % (
@@ -221,6 +242,8 @@ def run_case(args):
         return ('inconclusive', None, wit, 0, 0)
     if scr.unknown:
         return ('screen:unknown-sequence', 'the editor emitted something the emulator does not know: %r' % scr.unknown[:3], wit, nck, nontriv)
+    if case.get('rtl'):
+        return rtl_check(vi, case, files, keys[:-2], grid1, final, wit, nck, nontriv)
     if any('\x17' in p for p in case['prog']):
         return (None, None, None, nck, nontriv)      # split windows: the window clause is checked for single-window runs only
     if case.get('horiz') and len(finals) == len(prefixes):
@@ -232,6 +255,46 @@ def run_case(args):
             nontriv += 1
     # twin run for the last checkpoint: buffer and cursor
     return window_check(vi, case, files, keys[:-2] if case['raw'] else keys, final, W, wit, nck, nontriv, len(case['prog']) - 1)
+
+
+def rtl_check(vi, case, files, keys, grid, final, wit, nck, nontriv):
+    """right-to-left base direction, single-byte lines: row r shows, from the right edge leftwards, the characters left.. of its
+    line (one common left for all rows), and the terminal cursor is on the cell of the character commands act on"""
+    keys2 = keys + ('i' + MARK + '\x1b:w! out\n').encode()
+    r2, d2 = common.run_vi(vi, keys2, files=files, args=[case['fname']], timeout=90, lines=case['rows'], cols=case['cols'])
+    got = common.readf(d2, 'out')
+    common.rmcase(d2)
+    if got is None or r2.timed_out:
+        return (None, None, None, nck, nontriv)
+    blines = got.decode('utf-8', 'replace').split('\n')[:-1]
+    mpos = [(i, l.index(MARK)) for i, l in enumerate(blines) if MARK in l]
+    if len(mpos) != 1:
+        return (None, None, None, nck, nontriv)
+    mr_, mo = mpos[0]
+    blines = [l.replace(MARK, '') for l in blines]
+    s1, c1, top, bot = final
+    cols = case['cols']
+    cells = lambda row: ''.join(x if x != '' else ' ' for x in grid[row])
+    for t in range(len(blines)):
+        if not (t <= mr_ <= t + bot - top):
+            continue
+        for left in range(0, max(len(l) for l in blines) + 1):
+            ok = True
+            for i in range(bot - top + 1):
+                bi = t + i
+                src = blines[bi] if bi < len(blines) else '~'
+                exp = ''.join(src[left + (cols - 1 - x)] if 0 <= left + (cols - 1 - x) < len(src) else ' ' for x in range(cols))
+                if cells(top + i) != exp:
+                    ok = False
+                    break
+            if ok:
+                want_col = cols - 1 - (min(mo, max(0, len(blines[mr_]) - 1)) - left)
+                if c1 == (top + mr_ - t, want_col):
+                    return (None, None, None, nck, nontriv + 1)
+                return ('screen:cursor-cell', 'window %dx%d, right-to-left base direction (td=-2), after %s: rows are the mirrored window top=%d left=%d, the character commands act on (line %d offset %d, %r) is drawn in column %d but the terminal cursor is at %s' % (
+                    case['rows'], cols, [common.show(p, 12) for p in case['prog']], t, left, mr_ + 1, mo, blines[mr_][mo:mo + 1], want_col, c1), wit, nck, nontriv)
+    return ('screen:not-a-window', 'window %dx%d, right-to-left base direction (td=-2), after %s: the rows %r are not the mirror image of any window of %r' % (
+        case['rows'], cols, [common.show(p, 12) for p in case['prog']], [cells(i).rstrip() for i in range(top, bot + 1)], blines), wit, nck, nontriv)
 
 
 def window_check(vi, case, files, keys, final, W, wit, nck, nontriv, upto):
